@@ -154,7 +154,10 @@ volatile uintptr_t g_fault_addr = 0;
 std::string g_term_how;
 uint64_t g_unmaps_at_term = 0;
 
+bool g_signal_ignored = false; // environment knob: the application ignores/blocks the signal, so raise() returns
+uint64_t g_raise_returned = 0;
 int h_raise(int sig) {
+    if (g_term_armed && g_signal_ignored) { g_raise_returned++; return 0; } // the library must still terminate (abort)
     if (g_term_armed) { g_term_how = "raise(" + std::to_string(sig) + ")"; g_unmaps_at_term = M.n_unmap_calls; siglongjmp(g_term_env, 1); }
     return simos_real_raise(sig);
 }
@@ -194,7 +197,7 @@ struct Op {
     uint32_t idx = 0;             // which live allocation (mod live count)
     uint32_t a = 0, b = 0;        // offsets / byte index / value
 };
-struct PlanT { Json pk; uint64_t content_seed = 0; int lock_policy = 0; std::vector<Op> ops; };
+struct PlanT { Json pk; uint64_t content_seed = 0; int lock_policy = 0; bool signal_ignored = false; std::vector<Op> ops; };
 
 struct Alloc { uintptr_t p; size_t size; int prot; bool canary_ok; Bytes shadow; uintptr_t region; uint64_t id; unsigned char tamper[16]; };
 
@@ -433,6 +436,8 @@ struct Exec {
 
     Result run() {
         M.lock_policy = plan.lock_policy;
+        g_signal_ignored = plan.signal_ignored;
+        uint64_t raise_ret0 = g_raise_returned;
         M.anomalies.clear();
         uint64_t lock_failed0 = M.lock_failed;
         for (size_t i = 0; i < plan.ops.size() && !res.violated; i++) {
@@ -458,6 +463,8 @@ struct Exec {
         for (auto &kv : M.regions) { if (kv.second.kind == 'M') simos_real_munmap((void *) kv.second.base, kv.second.len); }
         M.regions.clear(); live.clear(); M.anomalies.clear();
         if (M.lock_failed != lock_failed0) res.count("fault.mlock_madvise_failed", M.lock_failed - lock_failed0);
+        if (g_raise_returned != raise_ret0) res.count("fault.signal_ignored_raise_returned", g_raise_returned - raise_ret0);
+        res.count(std::string("knob.signal_ignored=") + (plan.signal_ignored ? "yes" : "no"));
         res.digest = dg.value();
         res.nontrivial = true;
         res.count("knob.page_size=" + std::to_string(M.P));
@@ -530,6 +537,7 @@ struct C17 {
         Plan p;
         p.pk = pk; p.content_seed = rs;
         p.lock_policy = (int) (f.below(10) < 5 ? 0 : f.range(1, 3));
+        p.signal_ignored = f.chance(1, 3);
         size_t nops = (size_t) r.range(3, thorough ? 40 : 28);
         for (size_t i = 0; i < nops; i++) {
             Op op;
@@ -566,7 +574,7 @@ struct C17 {
 
     static Json to_json(const Plan &p) {
         Json j = Json::object();
-        j["knobs"] = p.pk; j["content_seed"] = p.content_seed; j["lock_policy"] = p.lock_policy;
+        j["knobs"] = p.pk; j["content_seed"] = p.content_seed; j["lock_policy"] = p.lock_policy; j["signal_ignored"] = p.signal_ignored;
         Json ops = Json::array();
         for (auto &o : p.ops) {
             Json q = Json::object();
@@ -581,7 +589,7 @@ struct C17 {
     }
     static Plan from_json(const Json &j) {
         Plan p;
-        p.pk = j.at("knobs"); p.content_seed = j.at("content_seed").u64(); p.lock_policy = (int) j.at("lock_policy").i64();
+        p.pk = j.at("knobs"); p.content_seed = j.at("content_seed").u64(); p.lock_policy = (int) j.at("lock_policy").i64(); p.signal_ignored = j.at("signal_ignored").boolean();
         for (auto &q : j.at("ops").a) {
             Op o;
             for (int i = 0; i < O_NKINDS; i++) if (q.at("op").str() == op_name[i]) o.kind = i;
@@ -595,6 +603,7 @@ struct C17 {
     static std::vector<Plan> simplify(const Plan &p) {
         std::vector<Plan> out;
         if (p.lock_policy) { Plan c = p; c.lock_policy = 0; out.push_back(c); }
+        if (p.signal_ignored) { Plan c = p; c.signal_ignored = false; out.push_back(c); }
         if (p.pk.at("page_size").u64() != 4096) { Plan c = p; c.pk["page_size"] = 4096u; out.push_back(c); }
         if (p.pk.at("cpu_disable").u64() != 0) { Plan c = p; c.pk["cpu_disable"] = 0u; out.push_back(c); }
         for (size_t i = 0; i < p.ops.size(); i++) {
@@ -617,7 +626,7 @@ struct C17 {
         stub.push("model page table (simulated MMU) mirroring every mapping call, at the simulated page size");
         stub.push("sysconf(_SC_PAGESIZE) (4096 / 16384 / 65536), mmap alignment to the simulated page, EINVAL for misaligned mprotect");
         stub.push("mlock / munlock / madvise (never forwarded; succeed or fail with ENOMEM/EPERM by policy)");
-        stub.push("process termination: raise()/abort()/__assert_fail are intercepted and turned into an observation");
+        stub.push("process termination: raise()/abort()/__assert_fail are intercepted and turned into an observation; in a third of the runs the signal is 'ignored by the application' (raise returns) and only abort() counts");
         stub.push("canary bytes (scripted random source)");
         comp["real"] = real; comp["stub"] = stub;
         ev["components"] = comp;
